@@ -99,6 +99,10 @@ func (e *E3) lenObligation(f *ssa.Function, fb *fnBnd, b *ssa.BasicBlock, idx te
 	if ok, by := e.scaledOb(b, idx, lt, c); ok {
 		return true, by
 	}
+	// relative search: idx = L + r (+k) with r = bytes.IndexByte(base[L:], _): r ≤ len(base) − L − 1
+	if ok, by := e.relSearchOb(idx, lt, c); ok {
+		return true, by
+	}
 	// caller-side requirement: base is (a slice of) a parameter
 	g := e.newGraph(b)
 	g.nodes[zeroT] = true
@@ -575,4 +579,55 @@ func (e *E3) callReqOb(f *ssa.Function, fb *fnBnd, b *ssa.BasicBlock, site ssa.C
 			add(site, "call-req", key, false, "", fmt.Sprintf("%s needs at least %d bytes in argument %s: %s", who, n, shortVal(args[i]), by))
 		}
 	}
+}
+
+// relSearchOb: idx (a 64-bit, wrap-free affine form) = L + r + k where r is the result of a search of the standard
+// library over X[L:] and len-base(X) is the obligation's base: r ≤ len(X) − L − 1 for a byte search (≤ len(X) − L
+// for a substring search), so idx ≤ len(X) + k − 1 (resp. + k); holds for r = −1 as well.
+func (e *E3) relSearchOb(idx, lt termT, c int64) (bool, string) {
+	if idx.len || idx.v == nil || !is64(idx.v.Type()) {
+		return false, ""
+	}
+	a := affineWide(idx.v)
+	if a == nil {
+		return false, ""
+	}
+	for tv, k := range a.Terms {
+		call, ok := tv.(*ssa.Call)
+		if !ok || k != 1 {
+			continue
+		}
+		sc := call.Call.StaticCallee()
+		if sc == nil || sc.Pkg == nil || (sc.Pkg.Pkg.Path() != "bytes" && sc.Pkg.Pkg.Path() != "strings") || len(call.Call.Args) < 1 {
+			continue
+		}
+		slack := int64(-2)
+		switch sc.Name() {
+		case "IndexByte", "LastIndexByte":
+			slack = -1
+		case "Index", "LastIndex":
+			slack = 0
+		}
+		if slack == -2 {
+			continue
+		}
+		sl, ok := call.Call.Args[0].(*ssa.Slice)
+		if !ok || sl.Low == nil || sl.High != nil || sl.Max != nil || !is64(sl.Low.Type()) {
+			continue
+		}
+		if e.lenBase(sl.X) != lt.v {
+			continue
+		}
+		al := affineWide(sl.Low)
+		if al == nil {
+			continue
+		}
+		rest := a.clone()
+		delete(rest.Terms, tv)
+		rest = rest.addScaled(al, -1)
+		if kk, isC := rest.isConst(); isC && kk+slack <= c {
+			return true, fmt.Sprintf("%s searches the base from %s on: its result plus that offset is at most the length %+d", sc.Name(), shortVal(sl.Low), slack)
+		}
+	}
+	return false, ""
 }
